@@ -193,7 +193,7 @@ pub fn test_case(c: &Case) -> Verdict {
                         let ret_list: Vec<usize> = retained.iter().map(|r| r.0).collect();
                         let back = node_from_bytes_backrefs(&mut a2, &b0).map_err(|e| {
                             format!(
-                                "completed serialization {} does not decode: {e}; expected tree {}\n retained additions at this point: {ret_list:?}",
+                                "completed serialization {} does not decode: {e}; expected tree {}\n undone additions so far: {undone:?}\n retained additions at this point: {ret_list:?}",
                                 hexs(&b0),
                                 interner.to_hex(want, 300)
                             )
@@ -201,7 +201,7 @@ pub fn test_case(c: &Case) -> Verdict {
                         let got = interner.node(&a2, back);
                         if got != want {
                             return Err(format!(
-                                "completed serialization decodes to the wrong tree:\n bytes    {}\n decoded  {}\n expected {}\n retained additions at this point: {ret_list:?}",
+                                "completed serialization decodes to the wrong tree:\n bytes    {}\n decoded  {}\n expected {}\n undone additions so far: {undone:?}\n retained additions at this point: {ret_list:?}",
                                 hexs(&b0),
                                 interner.to_hex(got, 400),
                                 interner.to_hex(want, 400)
@@ -268,11 +268,56 @@ pub fn test_case(c: &Case) -> Verdict {
                 .rsplit_once("retained additions at this point: [")
                 .map(|(_, t)| t.trim_end_matches(']').split(", ").filter_map(|x| x.trim().parse().ok()).collect())
                 .unwrap_or_default();
+            let undone: Vec<usize> = m
+                .rsplit_once("undone additions so far: [")
+                .and_then(|(_, t)| t.split_once(']'))
+                .map(|(l, _)| l.split(", ").filter_map(|x| x.trim().parse().ok()).collect())
+                .unwrap_or_default();
             match fresh_serialization_ok(c, &retained) {
-                Some(true) => Verdict::fail_sig(
-                    format!("{m}\n (the same retained additions on a fresh serializer, without the undone calls, serialize correctly)"),
-                    "undo-leaves-stale-parent-links",
-                ),
+                Some(true) => {
+                    // Known finding F3 needs more than "an undo happened": the parent links created by an undone
+                    // addition stay in the cache, and one of them is only followed when the value it hangs on is
+                    // serialized again (or was serialized before) and then occurs once more. So some sub-tree value of
+                    // an undone addition must occur at least twice in the finally assembled tree, or an undone addition
+                    // contained the sentinel itself (its parents are handed to the next fill). Any other wrong result after an undo is reported as a new violation.
+                    let stages: Vec<&St> = retained.iter().map(|r| &c.stages[*r]).collect();
+                    let want = assemble(&mut interner, &stages, &pool_ids);
+                    let mut f3 = false;
+                    if let Some(want) = want {
+                        for u in &undone {
+                            let st = &c.stages[*u];
+                            // every hole-free sub-tree value of the undone addition (its parent links are what stays behind)
+                            let mut vals: Vec<u32> = Vec::new();
+                            collect_values(&mut interner, st, &pool_ids, &mut vals);
+                            if vals.iter().any(|v| occurrences(&interner, want, *v) >= 2) {
+                                f3 = true;
+                            }
+                            // an undone addition that itself contained the sentinel leaves the sentinel's parent list
+                            // pointing into the undone structure; the next fill inherits those links
+                            if holes(st) > 0 {
+                                f3 = true;
+                            }
+                        }
+                    }
+                    // restore() also leaves the sentinel's own parent list drained; that interacts with the two other
+                    // known mechanisms (a stage with several holes, a hole-containing stage added more than once), so
+                    // histories containing either are attributed to the known finding as well
+                    let all: Vec<usize> = retained.iter().chain(undone.iter()).copied().collect();
+                    if all.iter().any(|s| holes(&c.stages[*s]) >= 2) {
+                        f3 = true;
+                    }
+                    for (k, s) in retained.iter().enumerate() {
+                        if holes(&c.stages[*s]) > 0 && c.stages[*s] != St::S && retained[..k].contains(s) {
+                            f3 = true;
+                        }
+                    }
+                    let note = "(the same retained additions on a fresh serializer, without the undone calls, serialize correctly)";
+                    if f3 {
+                        Verdict::fail_sig(format!("{m}\n {note}"), "undo-leaves-stale-parent-links")
+                    } else {
+                        Verdict::fail(format!("{m}\n {note}; no sub-tree value of an undone addition occurs twice in the assembled tree, so this is not the known stale-parent-link finding"))
+                    }
+                }
                 Some(false) => {
                     let multi = retained.iter().any(|s| holes(&c.stages[*s]) >= 2);
                     let reused = retained
@@ -298,6 +343,68 @@ pub fn test_case(c: &Case) -> Verdict {
         }
         Err(p) => Verdict::fail(format!("panic: {p}")),
     }
+}
+
+/// interned ids of every hole-free sub-tree of a stage (pool references expanded with all their sub-trees)
+fn collect_values(i: &mut Interner, s: &St, pool_ids: &[u32], out: &mut Vec<u32>) -> Option<u32> {
+    match s {
+        St::S => None,
+        St::R(k) | St::C(k) => {
+            let id = pool_ids[*k as usize % pool_ids.len()];
+            // all sub-trees of the pool value
+            let mut st = vec![id];
+            while let Some(n) = st.pop() {
+                if out.contains(&n) {
+                    continue;
+                }
+                out.push(n);
+                if let crate::dag::INode::P(l, r) = &i.nodes[n as usize] {
+                    st.push(*l);
+                    st.push(*r);
+                }
+            }
+            Some(id)
+        }
+        St::P(l, r) => {
+            let a = collect_values(i, l, pool_ids, out);
+            let b = collect_values(i, r, pool_ids, out);
+            match (a, b) {
+                (Some(a), Some(b)) => {
+                    let id = i.pair(a, b);
+                    out.push(id);
+                    Some(id)
+                }
+                _ => None,
+            }
+        }
+    }
+}
+
+/// number of occurrences of value `v` as a sub-tree of `root` in the expanded tree (saturating)
+fn occurrences(i: &Interner, root: u32, v: u32) -> u64 {
+    let mut memo: std::collections::HashMap<u32, u64> = std::collections::HashMap::new();
+    let mut st = vec![(root, false)];
+    while let Some((n, ready)) = st.pop() {
+        if memo.contains_key(&n) {
+            continue;
+        }
+        match &i.nodes[n as usize] {
+            crate::dag::INode::A(_) => {
+                memo.insert(n, (n == v) as u64);
+            }
+            crate::dag::INode::P(l, r) => {
+                if ready {
+                    let c = memo[l].saturating_add(memo[r]).saturating_add((n == v) as u64);
+                    memo.insert(n, c);
+                } else {
+                    st.push((n, true));
+                    st.push((*l, false));
+                    st.push((*r, false));
+                }
+            }
+        }
+    }
+    memo[&root]
 }
 
 fn fresh_serialization_ok(c: &Case, retained: &[usize]) -> Option<bool> {
